@@ -89,6 +89,7 @@ pub struct E1Hook {
     /// wall clock = base + virtual elapsed + skew
     pub wall: Mutex<Option<(u64, tokio::time::Instant, i64)>>,
     pub log_events: bool,
+    pub on_event: Mutex<Option<Box<dyn Fn(&str, &str) + Send + Sync>>>,
 }
 
 pub struct HookGuard(pub Arc<E1Hook>);
@@ -108,6 +109,7 @@ impl E1Hook {
             stub: Mutex::new(None),
             wall: Mutex::new(None),
             log_events: true,
+            on_event: Mutex::new(None),
         });
         verif::install(Some(h.clone() as Arc<dyn Hook>));
         HookGuard(h)
@@ -128,6 +130,10 @@ impl Hook for E1Hook {
         }
     }
     fn event(&self, site: &'static str, data: String) {
+        if let Some(f) = self.on_event.lock().unwrap().as_ref() {
+            f(site, &data);
+            return;
+        }
         if self.log_events {
             self.ctx.ev(format!("hook {site} {data}"));
         }
